@@ -65,6 +65,9 @@ pub enum FaultKind {
     RealName,
     /// E10: the second and later physical reads return `text` instead
     Stale,
+    /// E7 (reformatting tool): whitespace, comments and backslash-newline splices inserted at
+    /// token boundaries inside text lines, chosen by the seed `a`
+    Trivia,
 }
 
 #[derive(Clone, Debug, PartialEq)]
@@ -116,6 +119,7 @@ pub fn kind_name(k: &FaultKind) -> &'static str {
         FaultKind::Append => "append",
         FaultKind::RealName => "real_name",
         FaultKind::Stale => "stale",
+        FaultKind::Trivia => "trivia",
     }
 }
 
@@ -134,6 +138,7 @@ pub const ALL_KINDS: &[&str] = &[
     "append",
     "real_name",
     "stale",
+    "trivia",
 ];
 
 fn kind_from_name(s: &str) -> Option<FaultKind> {
@@ -152,6 +157,7 @@ fn kind_from_name(s: &str) -> Option<FaultKind> {
         "append" => FaultKind::Append,
         "real_name" => FaultKind::RealName,
         "stale" => FaultKind::Stale,
+        "trivia" => FaultKind::Trivia,
         _ => return None,
     })
 }
@@ -413,6 +419,7 @@ pub fn apply_content_faults(
                     contents = f.text.clone();
                 }
             }
+            FaultKind::Trivia => contents = insert_trivia(&contents, f.a),
             FaultKind::NotFound | FaultKind::NotText | FaultKind::RealName => {}
         }
         if contents != before {
@@ -420,6 +427,121 @@ pub fn apply_content_faults(
         }
     }
     Ok(contents)
+}
+
+/// Insert layout trivia at token boundaries of text lines. Conservative about what a boundary is:
+/// words are runs of [A-Za-z0-9_.], punctuation runs are never split, nothing is inserted directly
+/// after `<` or `>` (adjacency is significant there by design), and lines that are directives or
+/// contain strings, comments or splices are left alone.
+pub fn insert_trivia(text: &str, seed: u64) -> String {
+    let mut rng = crate::prng::Rng::new(seed).sub("trivia");
+    let mut out = String::with_capacity(text.len() + text.len() / 4);
+    let mut in_directive_continuation = false;
+    let mut in_block_comment = false;
+    for line in text.split_inclusive('\n') {
+        let body = line.trim_end_matches(['\n', '\r']);
+        let trimmed = body.trim_start();
+        // lines inside a block comment that started on an earlier line are not code
+        let was_in_comment = in_block_comment;
+        {
+            let b = body.as_bytes();
+            let mut k = 0;
+            while k < b.len() {
+                if in_block_comment {
+                    if b[k] == b'*' && b.get(k + 1) == Some(&b'/') {
+                        in_block_comment = false;
+                        k += 1;
+                    }
+                } else if b[k] == b'/' && b.get(k + 1) == Some(&b'/') {
+                    break;
+                } else if b[k] == b'/' && b.get(k + 1) == Some(&b'*') {
+                    in_block_comment = true;
+                    k += 1;
+                }
+                k += 1;
+            }
+        }
+        let untouchable = trimmed.starts_with('#')
+            || was_in_comment
+            || in_directive_continuation
+            || body.contains('"')
+            || body.contains("//")
+            || body.contains("/*")
+            || body.contains("*/")
+            || body.contains('\\')
+            || body.contains('\'')
+            || !body.is_ascii();
+        in_directive_continuation =
+            (trimmed.starts_with('#') || in_directive_continuation) && body.ends_with('\\');
+        if untouchable || trimmed.is_empty() {
+            out.push_str(line);
+            continue;
+        }
+        // split into units
+        #[derive(PartialEq, Clone, Copy)]
+        enum K {
+            Word,
+            Punct,
+            Space,
+        }
+        let kind = |c: char| {
+            if c.is_ascii_alphanumeric() || c == '_' || c == '.' {
+                K::Word
+            } else if c == ' ' || c == '\t' {
+                K::Space
+            } else {
+                K::Punct
+            }
+        };
+        let chars: Vec<char> = body.chars().collect();
+        let mut i = 0;
+        let mut prev_last: Option<char> = None;
+        // inside a float literal with a signed exponent (1.5e+38f) there is no token boundary
+        let mut in_exponent = 0u8;
+        while i < chars.len() {
+            let k = kind(chars[i]);
+            let mut j = i;
+            while j < chars.len() && kind(chars[j]) == k {
+                j += 1;
+            }
+            let unit: String = chars[i..j].iter().collect();
+            let glued = if in_exponent > 0 && k != K::Space {
+                in_exponent -= 1;
+                true
+            } else {
+                false
+            };
+            if k == K::Word
+                && unit.starts_with(|c: char| c.is_ascii_digit() || c == '.')
+                && unit.ends_with(['e', 'E'])
+                && matches!(chars.get(j), Some('+') | Some('-'))
+                && chars.get(j + 1).is_some_and(|c| c.is_ascii_digit())
+            {
+                in_exponent = 2;
+            }
+            // boundary in front of this unit
+            if k != K::Space
+                && !glued
+                && let Some(p) = prev_last
+                && p != '<'
+                && p != '>'
+                && rng.chance(1, 5)
+            {
+                // a comment next to '/' or '*' would form another comment delimiter
+                let near_slash = matches!(p, '/' | '*') || matches!(chars[i], '/' | '*');
+                let choice = rng.below(6) as usize;
+                let t = [" ", "\t", "/*t*/", " /* t */ ", "\\\n", "  \\\n  "][choice];
+                out.push_str(if near_slash && t.contains("/*") { " " } else { t });
+            }
+            out.extend(&chars[i..j]);
+            if k != K::Space {
+                prev_last = Some(chars[j - 1]);
+            }
+            i = j;
+        }
+        out.push_str(&line[body.len()..]);
+    }
+    out
 }
 
 /// The include handler handed to rssl. One instance per task.
